@@ -38,6 +38,15 @@ def corpus():
     M = chart_text(res=192, song=['Name = "M"'], sync=sync, events=ev, tracks={h: body(k) for k, h in enumerate(hs)})
     texts["M"] = M
     texts["Ms"] = M
+    # P, Q: many star-power phrases with a note in each (P) / only in late ones (Q): every phrase index is "new" to a
+    # process-wide table the first time it is met, so two threads parsing them grow such a table at the same time
+    pb = []
+    for k in range(48):
+        pb += [f"{100 * k} = S 2 50", f"{100 * k + 10} = N {k % 5} 0"]
+    qb = [f"{100 * k} = S 2 50" for k in range(60)] + [f"{100 * k + 10} = N {k % 5} 0" for k in range(30, 60)]
+    qb.sort(key=lambda ln: int(ln.split(" = ")[0]))
+    texts["P"] = chart_text(res=192, song=['Name = "P"'], sync=sync, events=[], tracks={"ExpertSingle": pb})
+    texts["Q"] = chart_text(res=192, song=['Name = "Q"'], sync=sync, events=[], tracks={"HardSingle": qb, "ExpertSingle": pb[:40]})
     wants = {"As": [["DRUMS", "HARD"], ["KEYS", "EASY"]],
              "Ms": [["KEYS", "EXPERT"], ["GUITAR", "EASY"], ["BASS", "HARD"], ["GUITAR", "EXPERT"], ["DRUMS", "EXPERT"], ["GUITAR", "MEDIUM"]]}
     return texts, wants
@@ -210,6 +219,36 @@ def run(ctx):
         for j, o in zip(js, outs):
             add(f"sl{k}", "line-schedule", o, {"threads": j["threads"], "sched": j["sched"], "chunk": j["chunk"], "clear": j["clear"]})
             k += 1
+    # ---- seeded BYTECODE-granularity schedules: a check-then-act on process-wide state inside one source line (compute a
+    # value from a shared table, then store into it) can only be split between two bytecodes
+    jobs = []
+    for _ in range(ctx.pick(48, 600)):
+        n = r.choice([2, 2, 3])
+        pool = ["P", "Q", "P", "Q", "A", "Z"]
+        threads = [[r.choice(pool) for _ in range(r.choice([1, 2]))] for _ in range(n)]
+        slots = [r.randrange(n) for _ in range(r.choice([200, 1000, 4000]))]
+        chunk = [r.choice([1, 2, 3, 5, 11, 40, 170]) for _ in range(n)]
+        jobs.append({"kind": "schedule", "threads": threads, "sched": slots, "chunk": chunk, "granularity": "opcode", "clear": False})
+    # lockstep schedules: two (or three) threads parse the SAME many-phrase text, alternating every c bytecodes, with the
+    # first thread given a head start of h slots - this walks the relative phase of the threads through every position
+    # of a compute-then-store window (the interleaving Process.tla calls MemoMissCompute(a), MemoMissCompute(b),
+    # MemoStore(b), MemoStore(a))
+    for c in ctx.pick([1, 2, 3, 5, 8], [1, 2, 3, 4, 5, 6, 7, 8, 9, 11, 13, 17]):
+        for h in ctx.pick([0, 1, 2, 3, 5, 8, 13, 21], list(range(0, 34))):
+            for txt, n in (("P", 2), ("Q", 2), ("P", 3)):
+                if n == 3 and (c > 3 or h % 3):
+                    continue
+                slots = [0] * h + [k % n for k in range(6000)]
+                jobs.append({"kind": "schedule", "threads": [[txt] for _ in range(n)], "sched": slots, "chunk": [c] * n,
+                             "granularity": "opcode", "clear": False})
+    with cf.ThreadPoolExecutor(max_workers=WORKERS) as ex:
+        outs = list(ex.map(lambda j: run_jobs(texts, wants, [j, {"kind": "history", "seq": ["P", "Q", "A"]}], timeout=1800), jobs))
+    sw = 0
+    for k, (j, o) in enumerate(zip(jobs, outs)):
+        add(f"so{k}", "opcode-schedule", o[0], {"threads": j["threads"], "sched": j["sched"][:50], "chunk": j["chunk"], "granularity": "opcode"})
+        add(f"so{k}h", "history-after-schedule", o[1], {"history": ["P", "Q", "A"], "after": {"threads": j["threads"], "chunk": j["chunk"]}})
+        sw += o[0]["switches"]
+    ctx.extra["bytecode_level_thread_switches"] = sw
     # ---- free-running threads with a 1 microsecond switch interval
     jobs = [{"kind": "stress", "threads": [[r.choice(names) for _ in range(6)] for _ in range(8)], "switch": 1e-6} for _ in range(ctx.pick(4, 32))]
     with cf.ThreadPoolExecutor(max_workers=4) as ex:
